@@ -106,6 +106,29 @@ uint32_t corruptValue(uint32_t x, int vk) {
   }
 }
 
+// byte offsets of the internal table boundaries of an intact binary model definition, taken from where the
+// library's own reader (given the intact bytes) says the tables are
+std::vector<long> mdefBoundaries(const std::string &b) {
+  std::vector<long> out;
+  s3file_t *s = s3file_init(b.data(), b.size());
+  bin_mdef_t *m = s ? bin_mdef_read_s3file(s, FALSE) : NULL;
+  if (m && m->alloc_mode == bin_mdef_t::BIN_MDEF_ON_DISK) {
+    const char *base = b.data();
+    out.push_back((const char *)m->ciname[0] - base);
+    out.push_back((const char *)m->cd_tree - base);
+    out.push_back((const char *)m->phone - base);
+    const char *sseqSize = (const char *)(m->phone + m->n_phone);
+    out.push_back(sseqSize - base);
+    out.push_back((const char *)m->sseq[0] - base);
+    int32 n;
+    memcpy(&n, sseqSize, 4);
+    out.push_back((const char *)(m->sseq[0] + n) - base);
+  }
+  if (m) bin_mdef_free(m);
+  if (s) s3file_free(s);
+  return out;
+}
+
 void buildFaults(bool thorough) {
   gFaults.clear();
   for (int m = 0; m < 2; ++m)
@@ -136,6 +159,11 @@ void buildFaults(bool thorough) {
         int grid = thorough ? 64 : 12;
         for (int g = 1; g < grid; ++g)
           for (long d = -1; d <= 1; ++d) lens.insert((long)b.size() * g / grid + d);
+        // the model definition has tables of its own behind the header (names, tree, phones, the size word of the
+        // senone-sequence table, the table itself): every length within 4 bytes of each of their boundaries
+        if (f == 0)
+          for (long bnd : mdefBoundaries(b))
+            for (long d = -4; d <= 4; ++d) lens.insert(bnd + d);
         for (long L : lens)
           if (L > 0 && L < (long)b.size()) gFaults.push_back({m, f, TRUNC, L, 0, dl});
         // single-field corruption: the 32-bit words that follow the header (counts, dimensions,
